@@ -106,6 +106,10 @@ func (f *zzFS) ReadFile(name string) ([]byte, error) {
 }
 
 func (f *zzFS) ReadDir(name string) ([]fs.DirEntry, error) {
+	if _, isFile := f.files[name]; isFile {
+		// as os.DirFS does for a regular file
+		return nil, &fs.PathError{Op: "readdir", Path: name, Err: errors.New("not a directory")}
+	}
 	if !f.isDir(name) {
 		return nil, &fs.PathError{Op: "readdir", Path: name, Err: fs.ErrNotExist}
 	}
